@@ -473,6 +473,13 @@ func (p *parser) resetInsertionMode() {
 		case a.Template:
 			// TODO: remove this divergence from the HTML5 spec.
 			if n.Namespace != "" {
+				if last {
+					// Fragment case with a foreign <template> context
+					// element: as for any other non-HTML context, the
+					// insertion mode is "in body".
+					p.im = inBodyIM
+					return
+				}
 				continue
 			}
 			p.im = p.templateStack.top()
